@@ -564,3 +564,16 @@ for _u in _c14["UNITS"]:
         _u.template = "../C14/" + _u.template
         UNITS.append(_u)
 META["trusted_base"] = list(META.get("trusted_base", [])) + ["units c14.* are the C14 units of the same name (specs/C14) with their trusted base"]
+
+
+# ---- C02 units reused (added after seeded change C07-6 was missed): a waiter that is a pika task is resumed through
+# ---- execution_agent::do_resume -> set_thread_state (retry_on_active) -> set_active_state; "the notification reaches the waiter" for
+# ---- a task that was still `active` when notify ran is exactly C02's contract of these three; same templates, run here as well
+_c02 = {}
+exec(compile(open("/verif/specs/C02/spec.py").read(), "/verif/specs/C02/spec.py", "exec"), _c02)
+for _u in _c02["UNITS"]:
+    if _u.name in ("sts.set_thread_state", "sts.set_active_state", "agent.do_resume", "agent.do_yield"):
+        _u.name = "c02." + _u.name
+        _u.template = "../C02/" + _u.template
+        UNITS.append(_u)
+META["trusted_base"] = list(META.get("trusted_base", [])) + ["units c02.* are the C02 units of the same name (specs/C02/sts.c, c02.h) with their trusted base"]
